@@ -413,6 +413,12 @@ class Machine:
             raise Unsupported('statement %s at %s' % (k, loc_str(s)))
 
     def init_list(self, dst, t, init, fr):
+        if t.get('k') == 'array' and (t.get('elem') or {}).get('k') == 'ptr':
+            # a table of pointers: each element designates an object
+            for i, it in enumerate(init.get('inits', [])):
+                p = self.pointer(it, fr)
+                self.store[(dst[0], dst[1] + ('[%d]' % i,))] = ('ptr', p[0], p[1])
+            return
         rec = self.prog.records.get(t.get('rec')) if t.get('k') in ('record', 'union') else None
         if rec is None or is_leaf_rec(t.get('rec')):
             raise Unsupported('initialiser list for %s' % t.get('s'))
